@@ -70,7 +70,12 @@ Definition chk_conn (root : option fnode) (rt : rxtab) (path : bytes) (pass : bo
       zlist_eqb (mw_notes l) (map fst ids) &&
       match t with
       | TUnknown => true
-      | TRefused _ => (status =? 403) && Nat.eqb (List.length (proc_notes l)) 0
+      | TRefused m =>
+          (* the only response is the one the refusing middleware wrote: a 403 page, nothing, or its own fragment *)
+          Nat.eqb (List.length (proc_notes l)) 0 &&
+          (if m <? 1000 then (status =? 403)
+           else if m <? 2000 then beq w []
+           else match parse_wire w with Some (code, _, _, body) => (code =? 200) && beq body (B "denied") | None => false end)
       | TRedirect loc =>
           Nat.eqb (List.length (proc_notes l)) 0 &&
           match parse_wire w with
